@@ -240,3 +240,60 @@ Definition run_layer_histories (arg : sx) : sx :=
     end
   | _ => sx_err
   end.
+
+(* ---- scanning ---- *)
+From PTA Require Import Scan.
+
+Fixpoint as_stmt_fuel (fuel : nat) (s : sx) : option (@stmt N) :=
+  match fuel with
+  | O => None
+  | S f =>
+    match s with
+    | L [A 0; ns] => option_map SImport (as_list as_name ns)
+    | L [A 1; A lv; md; ns] =>
+        match as_opt as_name md, as_Ns ns with
+        | Some md, Some ns => Some (SFrom (N.to_nat lv) md ns)
+        | _, _ => None
+        end
+    | L [A 2; L cs] => option_map SBlock (map_opt (as_stmt_fuel f) cs)
+    | L [A 3] => Some SOther
+    | _ => None
+    end
+  end.
+Definition as_stmt := as_stmt_fuel 64.
+
+Fixpoint as_fsnode_fuel (fuel : nat) (s : sx) : option (@fsnode N) :=
+  match fuel with
+  | O => None
+  | S f =>
+    match s with
+    | L [A 0; A nm; py; L body] =>
+        match as_bool py, map_opt as_stmt body with
+        | Some py, Some body => Some (FFile nm py body)
+        | _, _ => None
+        end
+    | L [A 1; A nm; L cs] => option_map (FDir nm) (map_opt (as_fsnode_fuel f) cs)
+    | _ => None
+    end
+  end.
+Definition as_fsnode := as_fsnode_fuel 64.
+
+(* fn 20: scan.  (root tree mp excluded_paths exclude_external excluded_external_names has_ext_patterns limit) *)
+Definition run_scan (arg : sx) : sx :=
+  match arg with
+  | L [A root; L tree; mp; excl; ee; xexcl; hx; lim] =>
+    match map_opt as_fsnode tree, as_name mp, as_list as_name excl, as_bool ee, as_list as_name xexcl, as_bool hx, as_opt as_N lim with
+    | Some tree, Some mp, Some excl, Some ee, Some xexcl, Some hx, Some lim =>
+      let c := {| sc_root := root; sc_tree := tree; sc_mp := mp;
+                  sc_excl := fun p => memb ceq p excl;
+                  sc_exclude_external := ee;
+                  sc_ext_excl := fun m => memb ceq m xexcl; sc_has_ext_excl := hx;
+                  sc_limit := option_map N.to_nat lim |} in
+      match scan ceq c with
+      | Some r => L [A 1; of_list of_name (sr_modules r); of_list of_name (nodes (sr_graph r)); of_list of_edge (imps (sr_graph r))]
+      | None => L [A 0]
+      end
+    | _, _, _, _, _, _, _ => sx_err
+    end
+  | _ => sx_err
+  end.
